@@ -642,6 +642,28 @@ func c14CheckSeq(st *c14State, pre [][]byte, frame []byte) (what string) {
 	return ""
 }
 
+// c14MalformedMTU delivers an advertisement whose MTU option is malformed: no MTU may be recorded.
+func c14MalformedMTU(st *c14State, frame []byte) (what string) {
+	defer func() {
+		if e := recover(); e != nil {
+			what = fmt.Sprintf("panic: %v @%s", e, panicSite())
+			st.s = nil
+		}
+	}()
+	if st.s == nil {
+		st.s, _ = env.NewSession(env.DefaultNIC(), packet.Config{})
+	}
+	icmp.VerifReset()
+	h, _ := icmp.New6(st.s)
+	if f, err := st.s.Parse(append([]byte(nil), frame...)); err == nil {
+		h.ProcessPacket(f)
+	}
+	if r := h.FindRouter(env.RouterLLA); r.Options.MTU != 0 {
+		return fmt.Sprintf("malformed-mtu recorded (MTU %d)", r.Options.MTU)
+	}
+	return ""
+}
+
 // prefixBytes returns the ceil(bits/8) leading bytes of a prefix with the bits beyond the prefix length cleared.
 func prefixBytes(a [16]byte, bits int) []byte {
 	n := (bits + 7) / 8
@@ -725,6 +747,56 @@ func c14LearnSweep(c *core.Ctx) {
 		c14Learn(c, st, []raOpt{{name: fmt.Sprintf("dnssl-1x%d", n), raw: c14DNSSL(1200, one), dnssl: []string{one}}}, 0x40, 1800, 64, 0, 0)
 		c14Learn(c, st, []raOpt{{name: fmt.Sprintf("dnssl-2x%d", n), raw: c14DNSSL(600, one, two), dnssl: []string{one, two}}}, 0x40, 1800, 64, 0, 0)
 	}
+	// every option length field 1..150 (8..1200 bytes; 32 and more do not fit a byte once multiplied by 8): recursive
+	// DNS server lists of 1..40 servers, search lists and unknown options of every length, each followed by an MTU
+	// option that the option walker only finds if it stepped over the long option correctly
+	mtu1500 := on("mtu1500")
+	for n := 1; n <= 40; n++ {
+		if !next() {
+			continue
+		}
+		v := []byte{0, 0, 0, 0, 0x02, 0x58}
+		var servers []netip.Addr
+		for i := 0; i < n; i++ {
+			a := netip.AddrFrom16([16]byte{0x20, 0x01, 0x0d, 0xb8, 15: byte(i + 1)})
+			servers = append(servers, a)
+			v = append(v, a.AsSlice()...)
+		}
+		c14Learn(c, st, []raOpt{{name: fmt.Sprintf("rdnss-x%d", n), raw: refnet.NDPOption(25, v), rdnss: servers, rdLife: 600}, mtu1500}, 0x40, 1800, 64, 0, 0)
+	}
+	for unit := 2; unit <= 150; unit++ {
+		if !next() {
+			continue
+		}
+		var names []string
+		t := unit*8 - 8 // bytes of encoded names that fill the option exactly
+		for t > 68 {
+			names = append(names, strings.Repeat("x", 63))
+			t -= 65
+		}
+		if t > 65 {
+			names = append(names, strings.Repeat("y", 30))
+			t -= 32
+		}
+		names = append(names, strings.Repeat("z", t-2))
+		c14Learn(c, st, []raOpt{{name: fmt.Sprintf("dnssl-len%d", unit), raw: c14DNSSL(1200, names...), dnssl: names}, mtu1500}, 0x40, 1800, 64, 0, 0)
+		c14Learn(c, st, []raOpt{{name: fmt.Sprintf("unknown14-len%d", unit), raw: refnet.NDPOption(14, make([]byte, unit*8-2))}, mtu1500}, 0x40, 1800, 64, 0, 0)
+	}
+	// an MTU option is 8 bytes long: one whose length field says 2..150 units is malformed and must not be recorded
+	for unit := 2; unit <= 150; unit++ {
+		if !next() {
+			continue
+		}
+		c.Count("evaluations", 1)
+		v := make([]byte, unit*8-2)
+		v[4], v[5] = 0x23, 0x28 // 9000 where the MTU of a well formed option is
+		body := refnet.RA(64, 0x40, 1800, 0, 0, refnet.NDPOption(5, v))
+		frame := refnet.Eth([]byte{0x33, 0x33, 0, 0, 0, 1}, env.RouterMAC, 0x86dd, refnet.IP6(env.RouterLLA, mc6, 58, 255, refnet.ICMP6(env.RouterLLA, mc6, 134, 0, body), -1))
+		if what := c14MalformedMTU(st, frame); what != "" && !differential {
+			c.Violate("router-learning|"+firstWords(what, 2), fmt.Sprintf("RA with an MTU option of %d bytes (length field %d, must be 1): %s", unit*8, unit, what), c14Replay{Kind: "ramtu", Frame: hex.EncodeToString(frame)})
+		}
+		c.Distinct(frame)
+	}
 	// all 256 flag bytes for a few representative option lists
 	for fl := 0; fl < 256; fl++ {
 		if !next() {
@@ -807,6 +879,10 @@ func init() {
 			if jsonUnmarshal(data, &r) == nil && r.Kind == "ra" {
 				f, _ := hex.DecodeString(r.Frame)
 				return c14Check(&c14State{}, f)
+			}
+			if r.Kind == "ramtu" {
+				f, _ := hex.DecodeString(r.Frame)
+				return c14MalformedMTU(&c14State{}, f)
 			}
 			if r.Kind == "ra2" {
 				f, _ := hex.DecodeString(r.Frame)
